@@ -30,6 +30,39 @@ def printf_formats():
     return out
 
 
+def exp_formats(tier):
+    """printf's exponent conversions (%e %E %g %G): what a driver declares for values spanning many magnitudes"""
+    out = []
+    flags = ("", "+", " ") if tier == "quick" else ("", "+", " ", "0", "-", "#")
+    precs = ("", ".0", ".3") if tier == "quick" else ("", ".0", ".1", ".3", ".8")
+    for conv in "gGeE":
+        for fl in flags:
+            for width in ("", "12"):
+                for prec in precs:
+                    out.append("%" + fl + width + prec + conv)
+    return out
+
+
+def exp_values(tier):
+    vals = [0.0, -0.0]
+    mant = (1, 1.5, 2.5, 5, 9.99, 9.9999995, 1.2345675, 1.00000049, 9.5, 9.95, 1.05) if tier == "quick" else tuple(k / 100 for k in range(100, 1000)) + (9.9999995, 1.2345675, 1.00000049, 9.99999949, 9.995, 9.9995)
+    for e in range(-9, 10):
+        for m in mant:
+            for s in (1, -1):
+                v = s * m * 10.0**e
+                if abs(v) <= 1e9:
+                    vals.append(v)
+        for s in (1, -1):
+            for d in (-1, 0, 1):
+                if e >= 0 and abs(10**e + d) <= 1e9:
+                    vals.append(float(s * (10**e + d)))
+    R = 2000 if tier == "quick" else 20000
+    for k in range(-R, R + 1, 7 if tier == "quick" else 1):
+        vals.append(k / 100)
+    vals += [999999.0, 999999.5, 1000000.0, 99999.95, 0.0001, 0.00009999995, 123456789.125, -99999999.99, 1e9, -1e9]
+    return vals
+
+
 def sexa_formats():
     out = []
     for fl in SEXA:
@@ -56,6 +89,9 @@ def shards(tier, seed):
         # neighbourhood of every whole degree on [-360, 360] for the fine formats
         if R < 360:
             sh.append((tier, "sexa-degrees", "%%.%dm" % fl, fl, -360, 360))
+    ef = exp_formats(tier)
+    for i in range(0, len(ef), 6):
+        sh.append((tier, "expfmt", tuple(ef[i : i + 6])))
     pf = printf_formats()
     per = 10
     for i in range(0, len(pf), per):
@@ -77,10 +113,13 @@ def render_check(values, fmt, res, viol):
 
     from mc import lib
 
-    unit = N.resolution(fmt)
+    exp_conv = fmt[-1] in "eEgG"
+    unit = None if exp_conv else N.resolution(fmt)
     for v in values:
         res["evaluations"] += 1
         fv = Fraction(v)
+        if exp_conv:
+            unit = N.resolution_at(fmt, fv)
         cls = "fmt=%s,sign=%s,%s" % (fmt, sgn(v), "whole" if fv.denominator == 1 else ("small" if abs(fv) < 1 else "frac"))
         try:
             text = V.num_to_str(v, fmt)
@@ -91,8 +130,8 @@ def render_check(values, fmt, res, viol):
             checks.number(text)
             OneNumber(name="x", value=text)
         except Exception as e:
-            shape = "padded" if text != text.strip() else ("plus" if text.startswith("+") else "other")
-            viol("render-rejected-by-validator", "fmt=%s,text=%s" % (fmt, shape), "num_to_str(%r, %r) = %r rejected: %r" % (v, fmt, text, e), {"kind": "render", "fmt": fmt, "value": v})
+            shape = "padded" if text != text.strip() else ("exponent" if "e" in text.lower() else ("plus" if text.startswith("+") else "other"))
+            viol("render-rejected-by-validator", "fmt=%s,text=%s" % ("%" + fmt[-1] if exp_conv else fmt, shape), "num_to_str(%r, %r) = %r rejected: %r" % (v, fmt, text, e), {"kind": "render", "fmt": fmt, "value": v})
         d = N.denotes(text)
         if d is None:
             viol("render-not-a-number", cls, "num_to_str(%r, %r) = %r" % (v, fmt, text), {"kind": "render", "fmt": fmt, "value": v})
@@ -136,6 +175,11 @@ def grammar(tier):
                 for s in field:
                     for f in fr:
                         yield "sexa3" + ("" if len(m) == 2 and len(s) == 2 else "-1digit"), w + sep + m + sep + s + f
+    # exponent notation (what %e / %g render): not in the property's list of peer syntaxes, so the validator may
+    # refuse it - but a text it accepts must parse to the value it denotes
+    for mnt in ("1", "5", "1.5", ".5", "1.", "9.99", "0", "10"):
+        for e in ("e0", "e5", "E5", "e+08", "e-05", "E-1", "e09", "e+0"):
+            yield "exponent", mnt + e
     # mixed separators
     for w in wholes[:2]:
         for s1, s2 in ((":", " "), (";", ":"), (" ", ";")):
@@ -166,6 +210,9 @@ def parse_check(idx, n, tier, res, viol):
             try:
                 OneNumber(name="x", value=s)
             except Exception as e:
+                if shape == "exponent":
+                    res["counters"]["exponent_refused"] = res["counters"].get("exponent_refused", 0) + 1
+                    continue
                 viol("validator-rejects-legal", disc_s, "OneNumber(value=%r): %r" % (s, e), {"kind": "parse", "text": s})
             for fmt in PARSE_FMTS:
                 res["evaluations"] += 1
@@ -248,6 +295,10 @@ def run_shard(shard):
                         yield w + m / 60 + (k + 0.5001) / den
 
         render_check(gen(), fmt, res, viol)
+    elif what == "expfmt":
+        for fmt in shard[2]:
+            render_check(exp_values(tier), fmt, res, viol)
+        res["samples"].append({"formats": list(shard[2])[:4], "example_values": [1e8, 9.9999995e5, 1.5e-7]})
     elif what == "printf":
         for fmt in shard[2]:
             render_check(printf_values(fmt, tier), fmt, res, viol)
